@@ -29,6 +29,9 @@ def nominal(scenario):
 def check(scenario, obs):
     ids, script = scenario['ids'], scenario['script']
     consume = scenario.get('consume', 'full')
+    if obs['error'] and obs['error'].startswith('HARD-CAP'):
+        raise Violation('the comparison run did not terminate: %s (verdicts so far %r)' % (
+            obs['error'], [(c['recording_id'], c['status']) for c in obs['comparisons']]), 'termination')
     if obs['error']:
         raise Violation('run_comparison raised %s' % obs['error'], 'run-raises')
     comps = obs['comparisons']
@@ -91,7 +94,8 @@ def run_one(ctx, scenario):
 def scenarios(draw):
     n = draw(st.integers(1, 8))
     ids = ['rec%d' % i for i in range(n)]
-    pool = ['equal', 'equal', 'equal', 'different', 'player_raises', 'exit', 'hang', 'hang', 'late']
+    pool = ['equal', 'equal', 'equal', 'different', 'player_raises', 'exit', 'hang', 'hang', 'late',
+            'hang_sigterm_ignored', 'dies_after_giveup']
     behs = [draw(st.sampled_from(pool)) for _ in ids]
     faults = [i for i, b in enumerate(behs) if b in PF.PROCESS_FAULTS]
     for i in faults[3:]:
